@@ -92,23 +92,26 @@ def grid2(tier):
 
 
 def reactive(tier):
-    """a CA loses its address (fixed: cannot-claim from 254; arbitrary: re-claim of the next address) while a reactive
-    application on the other stack answers that very frame, from inside its delivery callback, with a request - with
-    zero latency the request is processed by the loser while it is still inside the send call of that frame"""
+    """a CA loses its address (fixed: cannot-claim from 254; arbitrary: re-claim of the next address) and a peer answers
+    that very frame at once with a request (zero latency): the request is processed by the loser while it is still
+    inside the send call of that frame.  Also: a stack application that calls into its CA from inside a delivery callback."""
     out = []
-    for lat in (0, 1000):
-        for aac in (0, 1):
-            for pref in (0x10, 200):
-                for do in ({"op": "send_request", "dp": 0, "pgn": 0xFEDA, "dest": 255}, {"op": "send_request", "dp": 0, "pgn": 0xEE00, "dest": 255},
-                           {"op": "send_request", "dp": 0, "pgn": 0xFECA, "dest": pref}):
+    for aac in (0, 1):
+        for pref in (0x10, 200):
+            for rq in (0xFEDA, 0xEE00, 0xFECA):
+                for dest in (255, pref, 254):
                     for bypass in (False, True):
-                        # A owns / claims `pref`; B (lower NAME) is operational on another address and claims pref at 1.0 s
-                        a = {"name": "A", "lat": lat, "cas": [{"pref": pref, "aac": aac, "bypass": bypass, "name": {"identity_number": 9, "function": 3}}]}
-                        b = {"name": "B", "lat": lat, "cas": [{"pref": 0x55, "aac": 0, "bypass": True, "name": {"identity_number": 5}}],
-                             "react": [{"pgn": 0xEE00, "sa": None, "times": 2, "do": do}]}
+                        a = {"name": "A", "lat": 0, "cas": [{"pref": pref, "aac": aac, "bypass": bypass, "name": {"identity_number": 9, "function": 3}}]}
+                        b = {"name": "B", "lat": 0, "cas": [{"pref": 0x55, "aac": 0, "bypass": True, "name": {"identity_number": 5}}],
+                             "react": [{"pgn": 0xFEDA, "sa": None, "times": 1, "do": {"op": "send_request", "dp": 0, "pgn": 0xFECA, "dest": 255}}]}
                         ops = [] if bypass else [{"t": 0, "node": "A", "op": "start", "ca": 1, "delay": 0}]
+                        # a lower NAME claims A's address at 1.0 s; the peer (address 0x21) answers A's reaction with a request
                         ops.append({"t": 1_000_000, "node": "A", "op": "inject", "id": (6 << 26) | (0xEE << 16) | (0xFF << 8) | pref, "data": [0] * 8})
-                        out.append({"dll": "j1939-21", "nodes": [a, b], "ops": ops, "dur": 3_000_000, "expect": {"settled": False}})
+                        # later an ordinary broadcast from A's side of the bus, answered by B's application from inside its callback
+                        ops.append({"t": 2_000_000, "node": "B", "op": "inject", "id": (6 << 26) | (0xFE << 16) | (0xDA << 8) | 0x21, "data": [1, 2, 3]})
+                        req = {"node": "A", "id": (6 << 26) | (0xEA << 16) | (dest << 8) | 0x21, "data": [rq & 255, (rq >> 8) & 255, rq >> 16]}
+                        out.append({"dll": "j1939-21", "nodes": [a, b], "ops": ops, "dur": 3_000_000, "expect": {"settled": False},
+                                    "bus_react": [{"pf": 0xEE, "sa": None, "times": 2, "inject": req}]})
     return out
 
 
